@@ -13,7 +13,7 @@ import (
 // receivers, in the root or a sub package, and several ways to reach the union.
 func Union(c explore.Chooser) *prog.Program {
 	s := &S{C: c}
-	rootPath := prog.Module + "/un"
+	rootPath := prog.Base() + "/un"
 	subPath := rootPath + "/sub"
 
 	marker := s.Pick("Shape.marker", "isShape", "IsShape")
@@ -45,10 +45,10 @@ func Union(c explore.Chooser) *prog.Program {
 
 	// candidates
 	type cand struct {
-		name          string
-		defKind       string
-		defImpl       string
-		defOtherImpl  string
+		name         string
+		defKind      string
+		defImpl      string
+		defOtherImpl string
 	}
 	cands := []cand{
 		{"Circle", "struct", "value", "value"},
